@@ -192,3 +192,27 @@ def innermost_tmpl(v):
             continue
         return v
     return v
+
+
+def cas1(ctx, lib, roles):
+    """CAS-1: the flag group is (?ix)/(?i)/(?x)/empty exactly per the case and verbose settings."""
+    r = regexp_fmt_leaves(ctx, lib, roles)
+    if not r:
+        return
+    b = r["body"]
+    n = 0
+    for fl in r["leaves"]:
+        sk, why = parse_skeleton(fl)
+        if sk is None:
+            ctx.violation("CAS-1", (b.path, "skeleton"), "%s [settings %s]" % (why, fl.flags), b.loc())
+            continue
+        v, ci = fl.flags.get("verbose"), fl.flags.get("ignore_case")
+        want = {(True, True): "(?ix)", (True, False): "(?i)", (False, True): "(?x)", (False, False): ""}.get((bool(ci), bool(v)))
+        if v is None or ci is None:
+            ctx.undecided("CAS-1", b.path, "a path does not test both the verbose and the case setting", b.loc())
+        elif sk["flag"] != want:
+            ctx.violation("CAS-1", (b.path, "flag"), "flag group is %r, expected %r for settings %s" % (sk["flag"], want, fl.flags), b.loc())
+        else:
+            n += 1
+            ctx.ok("CAS-1", "%s|ci=%s,x=%s|%s" % (b.path, ci, v, ",".join("%s=%d" % kv for kv in sorted(fl.flags.items()))), {"flag": want}, b.loc())
+    ctx.floor("CAS-1", "abstract paths of RegExp::fmt", n, 48)
